@@ -11,7 +11,7 @@ for f in ("patch.diff", "demo.py"):
 meta = json.loads((src / "meta.json").read_text())
 meta["confirmed"] = {
     "how": "tools/try_seed.sh: demo.py exit 0 on unchanged tree, exit 1 on changed tree; baseline pytest 66 passed on changed tree; "
-           "checks run with `git -C /repo apply patch.diff` and undone with `git -C /repo checkout -- .`",
+           "checks run against a scratch worktree of /repo's HEAD with the patch applied (PYTHONPATH=<worktree>/src), /repo untouched",
     "detected_by_quick_checks": [] if det == "none" else det.split(","),
     "note": note,
 }
